@@ -30,7 +30,21 @@ type c08op struct {
 }
 
 // c08Spec builds a valid spec from a choice of operations and definitions.
-func c08Spec(ops []c08op, defs []string) []byte {
+func c08Spec(ops []c08op, defs []string) []byte { return c08SpecShaped(ops, defs, -1) }
+
+// shapes a definition may take (every one of them is a definition of its own and must yield a Go type of its own)
+var c08Shapes = []map[string]interface{}{
+	{"type": "object", "properties": map[string]interface{}{"v": map[string]interface{}{"type": "string"}}},
+	{"type": "string", "format": "binary"},
+	{"type": "string", "enum": []interface{}{"a", "b"}},
+	{"type": "array", "items": map[string]interface{}{"type": "string"}},
+	{"type": "object", "additionalProperties": map[string]interface{}{"type": "integer"}},
+	{"type": "string", "format": "date"},
+	{"type": "integer", "format": "int64"},
+}
+
+// c08SpecShaped: shapeOff < 0 gives every definition the object shape; otherwise definition k takes shape (k + shapeOff) mod len.
+func c08SpecShaped(ops []c08op, defs []string, shapeOff int) []byte {
 	paths := map[string]interface{}{}
 	for _, o := range ops {
 		if paths[o.Path] == nil {
@@ -52,8 +66,12 @@ func c08Spec(ops []c08op, defs []string) []byte {
 		paths[o.Path].(map[string]interface{})[o.Method] = op
 	}
 	d := map[string]interface{}{}
-	for _, n := range defs {
-		d[n] = map[string]interface{}{"type": "object", "properties": map[string]interface{}{"v": map[string]interface{}{"type": "string"}}}
+	for k, n := range defs {
+		if shapeOff < 0 {
+			d[n] = c08Shapes[0]
+		} else {
+			d[n] = c08Shapes[(k+shapeOff)%len(c08Shapes)]
+		}
 	}
 	doc := map[string]interface{}{"swagger": "2.0", "info": map[string]interface{}{"title": "t", "version": "1"}, "paths": paths}
 	if len(d) > 0 {
@@ -111,7 +129,11 @@ func CheckC08(run *ev.Run) {
 				defs = append(defs, d)
 			}
 		}
-		spec := c08Spec(ops, defs)
+		shapeOff := -1
+		if i%2 == 1 {
+			shapeOff = i / 2
+		}
+		spec := c08SpecShaped(ops, defs, shapeOff)
 		replay := map[string]interface{}{"spec": json.RawMessage(spec), "operations": ops, "definitions": defs,
 			"how": "swagger generate server -f spec.json -t target -A c08; count handler registrations in restapi/operations/c08_api.go and types in models/"}
 		// (a) gatherOperations vs model
@@ -258,13 +280,55 @@ func CheckC08(run *ev.Run) {
 				}
 			}
 		}
-		if len(defs) > 0 && (files < len(defs) || len(types) < len(defs)) {
+		// definitions in distinct collision classes (names that differ by more than case and punctuation) can always be
+		// given distinct Go names: fewer types than classes is a definition dropped WITHOUT any collision
+		classes := map[string]bool{}
+		for _, dn := range defs {
+			classes[strings.Map(func(c rune) rune {
+				if c >= 'A' && c <= 'Z' {
+					return c + 32
+				}
+				if (c >= 'a' && c <= 'z') || (c >= '0' && c <= '9') {
+					return c
+				}
+				return -1
+			}, dn)] = true
+		}
+		if len(types) < len(classes) {
+			st["definitions-dropped"]++
+			replay["model_types"] = len(types)
+			replay["collision_classes"] = len(classes)
+			run.Deviation("dropped:definition-without-collision", fmt.Sprintf("generation succeeds but %d definitions in %d collision classes yield only %d model types: a definition is missing although its name collides with no other", len(defs), len(classes), len(types)), replay)
+		} else if len(defs) > 0 && (files < len(defs) || len(types) < len(defs)) {
 			st["definitions-merged"]++
 			replay["model_files"] = files
 			replay["model_types"] = len(types)
 			run.Deviation("merged:definitions", fmt.Sprintf("generation succeeds but %d definitions yield %d model files and %d types", len(defs), files, len(types)), replay)
 		} else {
 			st["definitions-complete"]++
+		}
+		// the same census for `generate client` (shaped definition sets): every definition class has a type in the client's models too
+		if shapeOff >= 0 && len(defs) > 0 {
+			ctarget := filepath.Join(root, "ctarget")
+			_ = os.MkdirAll(ctarget, 0o755)
+			if cerr := GenInProc("client", []string{"-f", specPath, "-t", ctarget, "-A", "c08"}, nil); cerr == nil {
+				ctypes := map[string]bool{}
+				for _, f := range goFiles(filepath.Join(ctarget, "models")) {
+					b, _ := os.ReadFile(f)
+					for _, g := range rxTypeDecl.FindAllStringSubmatch(string(b), -1) {
+						ctypes[g[1]] = true
+					}
+				}
+				if len(ctypes) < len(classes) {
+					st["client-definitions-dropped"]++
+					replay["client_model_types"] = len(ctypes)
+					run.Deviation("dropped:client:definition-without-collision", fmt.Sprintf("generate client succeeds but %d definitions in %d collision classes yield only %d model types", len(defs), len(classes), len(ctypes)), replay)
+				} else {
+					st["client-definitions-complete"]++
+				}
+			} else {
+				st["client-generation-fails"]++
+			}
 		}
 		if len(run.Samples) < 3 {
 			run.Sample(map[string]interface{}{"operations": ops, "definitions": defs, "routes_registered": len(routes), "model_files": files})
